@@ -8,7 +8,8 @@ sys.path.insert(0, os.path.join(HERE, 'lib'))
 CLAIMS = {}
 for f in sorted(glob.glob(os.path.join(HERE, 'lib', 'fam_*.py'))):
     mod = importlib.import_module(os.path.basename(f)[:-3])
-    CLAIMS.update(getattr(mod, 'PROPS', {}))
+    if getattr(mod, 'READY', False):   # a family is claimed only once the main session has verified it
+        CLAIMS.update(getattr(mod, 'PROPS', {}))
 NOT_YET = {}
 def main():
     allp = [json.loads(l)['id'] for l in open(os.path.join(HERE, 'properties.jsonl'))]
